@@ -348,6 +348,19 @@ class DynGraph(nx.Graph):
             raise nx.NetworkXError(
                 "The t argument must be specified.")
 
+        if not isinstance(t, list):
+            t = [t, t]
+
+        if e is not None and self.edge_removal:
+            t[1] = e - 1
+
+        datadict = self._adj[u].get(v) if u in self._adj else None
+
+        # reject before touching anything
+        if datadict is not None and t[0] < datadict['t'][-1][0]:
+            raise ValueError("The specified interaction extension is broader than "
+                             "the ones already present for the given nodes.")
+
         if u not in self._node:
             self._adj[u] = self.adjlist_inner_dict_factory()
             self._node[u] = {}
@@ -355,83 +368,65 @@ class DynGraph(nx.Graph):
             self._adj[v] = self.adjlist_inner_dict_factory()
             self._node[v] = {}
 
-        if not isinstance(t, list):
-            t = [t, t]
+        if t[1] < t[0]:
+            # empty span: nothing becomes present
+            return
 
-        for idt in [t[0]]:
-            if self.has_edge(u, v) and not self.edge_removal:
-                continue
-            else:
-                if idt not in self.time_to_edge:
-                    self.time_to_edge[idt] = {(u, v, "+"): None}
-                else:
-                    if (u, v, "+") not in self.time_to_edge[idt]:
-                        self.time_to_edge[idt][(u, v, "+")] = None
+        def _add_event(idt, op):
+            if idt not in self.time_to_edge:
+                self.time_to_edge[idt] = {}
+            if not any(k in self.time_to_edge[idt] for k in [(u, v, op), (v, u, op)]):
+                self.time_to_edge[idt][(u, v, op)] = None
 
-        if e is not None and self.edge_removal:
+        def _del_event(idt, op):
+            found = False
+            if idt in self.time_to_edge:
+                for k in [(u, v, op), (v, u, op)]:
+                    if k in self.time_to_edge[idt]:
+                        del self.time_to_edge[idt][k]
+                        found = True
+                if len(self.time_to_edge[idt]) == 0:
+                    del self.time_to_edge[idt]
+            return found
 
-            t[1] = e - 1
-            if e not in self.time_to_edge:
-                self.time_to_edge[e] = {(u, v, "-"): None}
-            else:
-                self.time_to_edge[e][(u, v, "-")] = None
+        closing = e is not None and self.edge_removal
+        fresh = range(0)  # instants that become present with this call
 
-        # add the interaction
-        datadict = self._adj[u].get(v, self.edge_attr_dict_factory())
-
-        if 't' in datadict:
+        if datadict is None:
+            datadict = self.edge_attr_dict_factory()
+            datadict['t'] = [t]
+            _add_event(t[0], "+")
+            if closing:
+                _add_event(e, "-")
+            fresh = range(t[0], t[1] + 1)
+        else:
             app = datadict['t']
             max_end = app[-1][1]
+            if t[0] > max_end + 1:
+                app.append(t)
+                if self.edge_removal:
+                    _add_event(t[0], "+")
+                if closing:
+                    _add_event(e, "-")
+                fresh = range(t[0], t[1] + 1)
+            elif t[1] > max_end:
+                closed = _del_event(max_end + 1, "-")
+                # a one-instant run without vanishing event that a point interaction extends
+                # by one instant stays without vanishing event
+                single = app[-1][0] == max_end and t[0] == max_end + 1 and e is None and not closed
+                app[-1][1] = t[1]
+                if self.edge_removal and not single:
+                    _add_event(t[1] + 1, "-")
+                fresh = range(max_end + 1, t[1] + 1)
+            elif closing and t[1] == max_end:
+                # contained span that states the run's vanishing time: record it
+                _add_event(e, "-")
 
-            if max_end == app[-1][0] and t[0] == app[-1][0] + 1:
-
-                app[-1] = [app[-1][0], t[1]]
-                if app[-1][0] + 1 in self.time_to_edge and (u, v, "+") in self.time_to_edge[app[-1][0] + 1]:
-                    del self.time_to_edge[app[-1][0] + 1][(u, v, "+")]
-
-            else:
-                if t[0] < app[-1][0]:
-                    raise ValueError("The specified interaction extension is broader than "
-                                     "the ones already present for the given nodes.")
-
-                if t[0] <= max_end < t[1]:
-                    app[-1][1] = t[1]
-                    if max_end + 1 in self.time_to_edge:
-                        if self.edge_removal:
-                            del self.time_to_edge[max_end + 1][(u, v, "-")]
-                        del self.time_to_edge[t[0]][(u, v, "+")]
-
-                elif max_end == t[0] - 1:
-                    if max_end + 1 in self.time_to_edge and (u, v, "+") in self.time_to_edge[max_end + 1]:
-                        del self.time_to_edge[max_end + 1][(u, v, "+")]
-                        if self.edge_removal:
-                            if max_end + 1 in self.time_to_edge and (u, v, '-') in self.time_to_edge[max_end + 1]:
-                                del self.time_to_edge[max_end + 1][(u, v, '-')]
-                            if t[1] + 1 in self.time_to_edge:
-                                self.time_to_edge[t[1] + 1][(u, v, "-")] = None
-                            else:
-                                self.time_to_edge[t[1] + 1] = {(u, v, "-"): None}
-
-                    app[-1][1] = t[1]
-                else:
-                    app.append(t)
+        if self.edge_removal:
+            for idt in fresh:
+                self.snapshots[idt] = self.snapshots.get(idt, 0) + 2
         else:
-            datadict['t'] = [t]
-
-        if e is not None:
-            span = range(t[0], t[1] + 1)
-            for idt in span:
-                if idt not in self.snapshots:
-                    self.snapshots[idt] = 1
-                else:
-                    self.snapshots[idt] += 1
-        else:
-            for idt in t:
-                if idt is not None:
-                    if idt not in self.snapshots:
-                        self.snapshots[idt] = 1
-                    else:
-                        self.snapshots[idt] += 1
+            self.snapshots[t[0]] = self.snapshots.get(t[0], 0) + 2
 
         self._adj[u][v] = datadict
         self._adj[v][u] = datadict
